@@ -214,13 +214,14 @@ static void newQuery(World &w, Rng &rng)
 {
     auto sampler = w.space->allocStateSampler();
     ob::ScopedState<> tmp(w.space);
+    bool mid = false;  // draw in the middle of the space instead of a corner
     auto draw = [&](bool low) {
         for (int t = 0; t < 20000; ++t)
         {
             // the library RNG is not used here: keep the harness PRNG the only source
             std::vector<double> r = w.reals(tmp.get());
             for (auto &v : r) v = rng.uni(-1, 1);
-            for (int i = 0; i < w.pd; ++i) r[i] = low ? rng.uni(0.2, 2.8) : rng.uni(7.2, 9.8);
+            for (int i = 0; i < w.pd; ++i) r[i] = mid ? rng.uni(3.0, 7.0) : low ? rng.uni(0.2, 2.8) : rng.uni(7.2, 9.8);
             if (w.kind == K_R6)
                 for (int i = 3; i < 6; ++i) r[i] = rng.uni(0.2, 9.8);
             w.space->copyFromReals(tmp.get(), r);
@@ -245,8 +246,24 @@ static void newQuery(World &w, Rng &rng)
         int extra = 1 + (int)rng.ui(2);
         for (int i = 0; i < extra; ++i)
         {
-            // reuse histories: the extra goal states are near the start, so the far one gets pruned once a solution exists
+            // reuse histories: the extra goal states are nearer to the start, so the far one gets pruned once a solution exists;
+            // half of them lie in the middle of the space, where the obstacles are: the first solution is then rarely the
+            // straight line (an optimal first solution ends the search of BIT*-like planners before anything is pruned)
+            mid = g_multiGoalProb > 0.5 && rng.coin();
             auto g = draw(g_multiGoalProb > 0.5 ? !swap : (rng.coin() ? swap : !swap));
+            if (mid && !w.starts[0].empty())
+            {
+                // ... and preferably behind an obstacle as seen from the start
+                ob::ScopedState<> s0(w.space), s1(w.space);
+                w.space->copyFromReals(s0.get(), w.starts[0]);
+                for (int t = 0; t < 40 && !g.empty(); ++t)
+                {
+                    w.space->copyFromReals(s1.get(), g);
+                    if (!w.si->checkMotion(s0.get(), s1.get())) break;
+                    g = draw(false);
+                }
+            }
+            mid = false;
             if (!g.empty() && g != w.starts[0]) w.goals.push_back(g);
         }
     }
